@@ -813,6 +813,7 @@ pub fn items(tier: Tier) -> Vec<DxItem> {
             let mut it = DxItem::new(params_json(&p), make(p), b);
             if long {
                 it.exec.long_yield = 4;
+                it.exec.quiesce = true;
             }
             it
         })
